@@ -49,9 +49,9 @@ func (c Cfg) String() string {
 	return s + fmt.Sprintf(" exp=%s rev=%s prec=%s", c.Expire, c.Revoke, c.Precision)
 }
 
-// IKCached reports whether intermediate keys are retained between calls under c. The SDK builds a shared
-// IK cache whenever SharedIK is set, whether or not CacheIK is (see DESIGN.md, finding F10).
-func (c Cfg) IKCached() bool { return c.CacheIK || c.SharedIK }
+// IKCached reports whether intermediate keys are retained between calls under c (the shared-cache option is
+// ignored when intermediate key caching is disabled; see DESIGN.md, finding F10).
+func (c Cfg) IKCached() bool { return c.CacheIK }
 
 // Policy builds the SDK crypto policy for c.
 func (c Cfg) Policy() *appencryption.CryptoPolicy {
